@@ -610,6 +610,38 @@ func runC12(w *World, c *Check) {
 			}
 			okLen = filled
 		}
+		// the hand-written form: the count is b[0]<<24|…|b[3] of the 4 bytes a Read filled (rendered
+		// as the same Uint32 call by the renderer; there is no call to relate by identity, the value
+		// that is decoded *is* the count)
+		manualCount := false
+		if !okLen && len(u32d) == 0 {
+			var counts []ssa.Value
+			for _, d := range cnd {
+				counts = append(counts, d.ci.Common().Args[2])
+				rctx = d.fa
+			}
+			for _, v := range counts {
+				for {
+					cv, isConv := v.(*ssa.Convert)
+					if !isConv {
+						break
+					}
+					v = cv.X
+				}
+				m := regexpFind(`^encoding/binary\.\(bigEndian\)\.Uint32\(encoding/binary\.BigEndian, (.*)\)$`, rctx.R.R(v))
+				if m == "" || !fullMatch(`local<\[4\]byte>(#\d+)?\[:4\]|make\(\[\]byte, 4\)`, m) {
+					continue
+				}
+				for _, d := range rdd {
+					if d.fa.Fn == rctx.Fn && d.fa.R.R(stripSlice(lastArg(d.ci, 1))) == strings.TrimSuffix(m, "[:4]") || d.fa.R.R(lastArg(d.ci, 1)) == m {
+						okLen, manualCount = true, true
+					}
+				}
+			}
+			if manualCount {
+				cn = cis(cnd)
+			}
+		}
 		c.Decide(okLen, "C12.framing", "client.sendTCP", "reply-length", tw, "the reply length is the big-endian uint32 of the 4 bytes read from the connection", fmt.Sprintf("Uint32 calls: %v", renderCalls(rctx, u32)))
 		connRe := `(conn|@0)`
 		okRF := len(rf) == 1 && len(rfd) == 1 && fullMatch(`io\.ReadFull\(`+connRe+`, make\(\[\]byte, .*Uint32\(.*\)\)\)`, rctx.RenderCall(rf[0]))
@@ -617,7 +649,9 @@ func runC12(w *World, c *Check) {
 			// the equivalent that does not pre-allocate: exactly that many bytes copied from the connection into a buffer whose bytes are returned
 			okRF = fullMatch(`io\.CopyN\(local<bytes\.Buffer>(#\d+)?, `+connRe+`, .*Uint32\(.*\)\)`, rctx.RenderCall(cn[0]))
 			// the count is the decoded length itself (identity), not an expression over it
-			if okRF && len(u32) == 1 {
+			if okRF && manualCount {
+				// established above: the count argument is the decoded value
+			} else if okRF && len(u32) == 1 {
 				n := cn[0].Common().Args[2]
 				for {
 					cv, isConv := n.(*ssa.Convert)
